@@ -11,13 +11,13 @@ Definition settled (r : nat) (c : fcache) : Prop := c = FNil \/ c = FObj (Some r
 
 Lemma fexec_owned r xs : forall c, settled r c ->
   let '(c', vs, lft, pend) := fexec c r xs in
-  own r vs /\ ((pend = true /\ c' = FObj None) \/ (pend = false /\ settled r c')).
+  own r vs /\ settled r c'.
 Proof.
   induction xs as [|x xs IH]; intros c Hc; simpl.
-  - split; [constructor|]. right. auto.
+  - split; [constructor|assumption].
   - destruct x.
     + destruct Hc as [-> | ->].
-      * split; [constructor|]. left. auto.
+      * split; [constructor|]. left. reflexivity.
       * specialize (IH (FObj (Some r)) (or_intror eq_refl)).
         destruct (fexec (FObj (Some r)) r xs) as [[[c' vs] lft] pend]. destruct IH as [H1 H2].
         split; [constructor; auto|assumption].
@@ -29,22 +29,20 @@ Qed.
    `base` is its own, and the cache is nil / its own / its own half-built object *)
 Definition good (s : fstate) (i : nat) (base : list (option nat)) : Prop :=
   exists q vs, nth_error (freqs s) i = Some q /\ fstarted q = true /\ fcrashed q = false /\
-               fgot q = (base ++ vs)%list /\ own (frid i) vs /\
-               ((fpending q = true /\ fc s = FObj None) \/ (fpending q = false /\ settled (frid i) (fc s))).
+               fgot q = (base ++ vs)%list /\ own (frid i) vs /\ settled (frid i) (fc s).
 
 Lemma fstep_good s i base : good s i base -> good (fstep s i) i base.
 Proof.
   intros (q & vs & Hq & Hs & Hc & Hg & Ho & Hj). unfold fstep. rewrite Hq, Hc, Hs. simpl.
   destruct (fsegs q) as [|cur rest] eqn:Hseg; [exists q, vs; auto 10|].
-  destruct Hj as [[Hp Hcache]|[Hp Hcache]]; rewrite Hp.
-  - rewrite Hcache.
-    pose proof (fexec_owned (frid i) cur (FObj (Some (frid i))) (or_intror eq_refl)) as H.
+  destruct (fpending q).
+  - pose proof (fexec_owned (frid i) cur (FObj (Some (frid i))) (or_intror eq_refl)) as H.
     destruct (fexec (FObj (Some (frid i))) (frid i) cur) as [[[c2 ws] lft] pend]. destruct H as [H1 H2].
     eexists. exists (vs ++ Some (frid i) :: ws)%list. simpl. rewrite (nth_fupd_same _ _ _ _ Hq). simpl.
     repeat split; auto.
     + rewrite Hg. now rewrite app_assoc.
     + apply Forall_app. split; [assumption|constructor; auto].
-  - pose proof (fexec_owned (frid i) cur (fc s) Hcache) as H.
+  - pose proof (fexec_owned (frid i) cur (fc s) Hj) as H.
     destruct (fexec (fc s) (frid i) cur) as [[[c2 ws] lft] pend]. destruct H as [H1 H2].
     eexists. exists (vs ++ ws)%list. simpl. rewrite (nth_fupd_same _ _ _ _ Hq). simpl.
     repeat split; auto.
@@ -64,12 +62,38 @@ Proof.
   intros Hq Hs Hc. simpl.
   assert (G : good (fstep s i) i (fgot q)).
   { unfold fstep. rewrite Hq, Hc, Hs. simpl. eexists. exists []. simpl. rewrite (nth_fupd_same _ _ _ _ Hq).
-    repeat split; auto; [now rewrite app_nil_r|constructor|]. right. split; [reflexivity|]. left. reflexivity. }
+    repeat split; auto; [now rewrite app_nil_r|constructor|]. left. reflexivity. }
   destruct (frun_good k _ _ _ G) as (q' & vs & H1 & _ & H3 & H4 & H5 & _). exists q', vs. auto.
 Qed.
 
-(* the interruption: A allocates and parks inside the fill, B starts (ResetSuperglobals), A resumes and
-   dereferences nil *)
-Lemma fine_crash_witness_l : exists progs sched i q,
-  nth_error (freqs (frun (finit progs) sched)) i = Some q /\ fcrashed q = true.
-Proof. exists [[[FGet]]; [[FGet]]], [0; 0; 1; 0], 0. vm_compute. eexists. split; reflexivity. Qed.
+Lemma nth_fupd_cases l : forall k j x y, nth_error (fupd l k x) j = Some y -> y = x \/ nth_error l j = Some y.
+Proof.
+  induction l as [|z l IH]; intros [|k] [|j] x y H; simpl in *; try discriminate; auto.
+  - inversion H. auto.
+  - eauto.
+Qed.
+
+(* no request ever crashes, under ANY schedule (before fix of the fill: refuted by schedule 0,0,1,0) *)
+Lemma fstep_no_crash s i : (forall j q, nth_error (freqs s) j = Some q -> fcrashed q = false) ->
+  forall j q, nth_error (freqs (fstep s i)) j = Some q -> fcrashed q = false.
+Proof.
+  intros H j q' Hj. unfold fstep in Hj. destruct (nth_error (freqs s) i) as [q|] eqn:Hq; [|eauto].
+  rewrite (H _ _ Hq) in Hj. simpl in Hj.
+  pose proof (fun l k x y => nth_fupd_cases l k j x y) as U.
+  destruct (negb (fstarted q)).
+  - simpl in Hj. destruct (U _ _ _ _ Hj) as [->|E]; [reflexivity|eauto].
+  - destruct (fsegs q) as [|cur rest]; [eauto|].
+    destruct (fpending q).
+    + destruct (fexec (FObj (Some (frid i))) (frid i) cur) as [[[c2 vs] lft] pend]. simpl in Hj.
+      destruct (U _ _ _ _ Hj) as [->|E]; [reflexivity|eauto].
+    + destruct (fexec (fc s) (frid i) cur) as [[[c2 vs] lft] pend]. simpl in Hj.
+      destruct (U _ _ _ _ Hj) as [->|E]; [reflexivity|eauto].
+Qed.
+Lemma fine_never_crashes_l progs sched : forall j q,
+  nth_error (freqs (frun (finit progs) sched)) j = Some q -> fcrashed q = false.
+Proof.
+  assert (G : forall sched s, (forall j q, nth_error (freqs s) j = Some q -> fcrashed q = false) ->
+              forall j q, nth_error (freqs (frun s sched)) j = Some q -> fcrashed q = false).
+  { induction sched0 as [|i r IH]; intros s H; simpl; [exact H|]. apply IH. now apply fstep_no_crash. }
+  apply G. intros j q Hj. simpl in Hj. rewrite nth_error_map in Hj. destruct (nth_error progs j); inversion Hj. reflexivity.
+Qed.
